@@ -8,6 +8,14 @@ CHECKS = {
         "note": "trusts clang's semantic initialiser resolution and the naming scheme vnaconv_<x>to<y>[n] of vnaconv(3)",
     },
 }
+CHECKS["C15"] = {
+    "technique": "static dataflow (range facts over clang CFG): exact index guards vs paired extent for every accessor",
+    "text": "Decides, on every CFG path of every non-static accessor (17 header inlines + out-of-line z0/fz0 functions + calibration/parameter slot "
+            "lookups), that a caller-supplied index reaches an object-array subscript only after guards establishing 0 <= i < paired extent of the same "
+            "object; index n (guard written with > instead of >=) and negative indices are reported. Does not decide the preserve/reset semantics of "
+            "resize over histories.",
+    "note": "extent pairing table (DESIGN A.2) encodes vnadata_internal.h as read; only subscripts indexed directly by a parameter are obligations",
+}
 NOT_APPLICABLE = {
     "C14": "YAML fidelity of arbitrary scalars/keys depends on libyaml's emitter/scanner behaviour on run-time strings; no clause is visible in libvna's source shape (DESIGN.md section 3, C14)",
 }
